@@ -189,6 +189,26 @@ func c16RunBatch(b c16Batch) c16Res {
 			node = c16Fresh(b.N) // a panic may have left a lock held: never touch this instance again
 			continue
 		}
+		if connDetached(conn) {
+			// the request put its connection into subscriber mode: what the client sends next is read
+			// by the connection's own background runner, a goroutine whose panic nothing recovers (the
+			// member process dies - here the worker does, which the parent reports). Every short
+			// follow-up, each on a connection of its own that was put into the same mode.
+			conn.DetachedConn().WaitIdle()
+			conn.DetachedConn().HangUp()
+			for _, f := range c16FollowUps {
+				c := simnet.NewSrvConn("fuzz-conn-sub")
+				if _, p := serve(node.m, c, args...); p != nil || !connDetached(c) {
+					continue
+				}
+				d := c.DetachedConn()
+				d.WaitIdle()
+				d.Send(f...)
+				d.Send("PING")
+				d.HangUp()
+				res.Replies["follow-up-on-subscriber-connection"]++
+			}
+		}
 		cls := replyClass(reply)
 		res.Replies[cls]++
 		if cls == "no-reply" && !connDetached(conn) {
@@ -218,6 +238,12 @@ func c16RunBatch(b c16Batch) c16Res {
 }
 
 func connDetached(c *simnet.SrvConn) bool { return c.IsDetached() }
+
+// c16FollowUps: commands sent on a connection that is in subscriber mode.
+var c16FollowUps = [][]string{
+	{"UNSUBSCRIBE"}, {"PUNSUBSCRIBE"}, {"UNSUBSCRIBE", "abc"}, {"PUNSUBSCRIBE", "abc"}, {"UNSUBSCRIBE", ""}, {"SUBSCRIBE"}, {"PSUBSCRIBE"},
+	{"SUBSCRIBE", "abc", "abc"}, {"PSUBSCRIBE", "["}, {"PING"}, {"PING", "abc", "abc"}, {"DM.GET", "d", "k"}, {"QUIT"}, {""},
+}
 
 func panicSite(p interface{}) string {
 	s := fmt.Sprint(p)
